@@ -59,7 +59,7 @@ func genVal(r *sim.Rand, n int, small bool) []byte {
 	}
 	v := []byte(fmt.Sprintf("%c%d", byte('a'+r.Intn(20)), n))
 	if r.Chance(1, 6) { // lengths around hash-sized and larger buffers; the unique prefix and the unique tail both matter
-		l := []int{31, 32, 33, 40, 64, 100, 1000}[r.Intn(7)]
+		l := []int{31, 32, 33, 40, 64, 100, 1000, 1000, 2400, 3000, 5000, 70000}[r.Intn(12)]
 		pad := make([]byte, l)
 		for i := range pad {
 			pad[i] = 'p'
@@ -317,6 +317,9 @@ func Gen(prop string, r *sim.Rand, tier string) sim.Script {
 		}
 		nreq := []int{0, 1, 2, 3, 5, 9, 10, 11, 12, 16, 24}[r.Intn(11)]
 		ex := WOp{K: "export"}
+		if r.Chance(1, 5) {
+			ex.A = 1 + r.Intn(12) // separate fault-injecting configuration: one storage read of the export fails
+		}
 		for j := 0; j < nreq; j++ {
 			ex.S = append(ex.S, r.Intn(len(s.Keys)))
 		}
